@@ -193,6 +193,14 @@ func (c *ctx) decorate(tv *TV) {
 			f := s.Fields[r.Intn(len(s.Fields))]
 			s.Fields = append(s.Fields, f) // duplicate occurrence
 		}
+		for i := range s.Fields {
+			// a bool byte other than 0 / 1 is well-formed Thrift; the decoder stores it as it is
+			if s.Fields[i].V.T == tBOOL && r.Intn(6) == 0 {
+				nv := *s.Fields[i].V
+				nv.N = uint64(2 + r.Intn(254))
+				s.Fields[i].V = &nv
+			}
+		}
 		if r.Intn(2) == 0 {
 			n := 1 + r.Intn(3)
 			for i := 0; i < n; i++ {
@@ -229,6 +237,46 @@ func (c *ctx) prune(tv *TV, p int) {
 		}
 		s.Fields = keep
 	})
+}
+
+// sparsify: every struct that is an element / key / value of a container keeps at most one of its
+// fields (an older writer that knew few of them), and one such container becomes the last field of
+// the message: a lower bound on element sizes derived from the reader's schema would reject it
+func (c *ctx) sparsify(tv *TV) bool {
+	r := c.r
+	last := -1
+	for i, f := range tv.Fields {
+		var elems []*TV
+		switch f.V.T {
+		case tLIST, tSET:
+			elems = f.V.Elems
+		case tMAP:
+			elems = append(append(elems, f.V.Keys...), f.V.Elems...)
+		}
+		any := false
+		for _, e := range elems {
+			if e.T != tSTRUCT {
+				continue
+			}
+			any = true
+			if len(e.Fields) > 1 {
+				k := r.Intn(len(e.Fields))
+				e.Fields = []TField{e.Fields[k]}
+			}
+			if r.Intn(3) == 0 {
+				e.Fields = nil
+			}
+		}
+		if any && (last < 0 || r.Intn(2) == 0) {
+			last = i
+		}
+	}
+	if last < 0 {
+		return false
+	}
+	f := tv.Fields[last]
+	tv.Fields = append(append(tv.Fields[:last:last], tv.Fields[last+1:]...), f)
+	return true
 }
 
 func (c *ctx) dest(u *universe.UStruct, g *genCfg) reflect.Value {
@@ -271,6 +319,13 @@ func (c *ctx) decodeSide(us []*universe.UStruct, perType int, reencode bool) {
 						c.h.opDec(u, one.ser(nil), c.dest(u, g), false)
 					}
 				}
+			}
+		}
+		for k := 0; k < 2; k++ {
+			gm := c.cfg()
+			gm.minLen, gm.maxLen, gm.bigStr = 2, 4, false
+			if tv := c.mkMessage(w, gm); tv != nil && c.sparsify(tv) {
+				c.h.opDec(u, tv.ser(nil), c.dest(u, g), false)
 			}
 		}
 		for i := 0; i < perType; i++ {
@@ -472,9 +527,17 @@ func (c *ctx) requiredFields(us []*universe.UStruct, perType int) {
 			tv.walkStructs(func(s *TV) {
 				if c.r.Intn(2) == 0 && len(s.Fields) > 0 {
 					k := c.r.Intn(len(s.Fields))
-					if c.r.Intn(4) == 0 {
+					switch c.r.Intn(6) {
+					case 0:
 						s.Fields[k].V = randTV(c.r, wireTypes[c.r.Intn(len(wireTypes))], 1)
-					} else {
+					case 1, 2:
+						// an occurrence of another field takes the dropped one's place: the message has
+						// as many fields as before, one of them twice
+						if len(s.Fields) > 1 {
+							o := (k + 1 + c.r.Intn(len(s.Fields)-1)) % len(s.Fields)
+							s.Fields[k] = s.Fields[o]
+						}
+					default:
 						s.Fields = append(s.Fields[:k], s.Fields[k+1:]...)
 					}
 				}
